@@ -34,6 +34,8 @@ func init() {
 			{ID: "R08f", Floor: 2, Doc: "goroutines without the lock capture no slice/map/pointer loaded from a guarded field", Run: ruleR08f},
 			{ID: "R08g", Floor: 6, Doc: "a struct that holds a mutex by value is never copied: no value receiver, by-value parameter, or whole-struct load of such a type in the repository (a copy has its own mutex: the method excludes nobody, or inherits a locked mutex and never returns)", Run: ruleR08g},
 			{ID: "R08h", Floor: 1, Doc: "NewOffsetReadSeeker hands out a fresh cursor on every call: concurrent readers (Roots, AllKeysChan, index generation) each rely on a private position over the shared backing", Run: ruleR08h},
+			{ID: "R08j", Floor: 6, Doc: "the lookup methods of the insertion index do not write to it: HasExactCID, HasMultihash, Get, GetAll, ForEach, ForEachCid, Marshal and Flatten store to no field of their receiver — StorageCar.Has and the read paths call them under the shared lock, concurrently", Run: ruleR08j},
+			{ID: "R08k", Floor: 1, Doc: "PutMany decides and inserts block by block: the de-duplication decision for a block sees every block already written by this or a concurrent call (= R01f)", Run: ruleR01f},
 			{ID: "R08d", Floor: 8, Doc: "guard-table completeness: every field of the concurrent types that is stored outside the constructor phase is in the guard table", Run: ruleR08d},
 			{ID: "R08i", Floor: 1, Doc: "the lazily created writer is remembered only when its construction succeeded (a failed first initialisation is retried, not turned into a nil writer for the next caller) (= R16f)", Run: ruleR16f},
 		},
@@ -747,4 +749,48 @@ func ruleR08h(c *Ctx, r *Report) {
 		bad = "no allocating return found"
 	}
 	r.Check(bad == "", key, c.Pos(fn.Pos()), fmt.Sprintf("%d return(s), each a fresh offsetReadSeeker", n), bad)
+}
+
+func ruleR08j(c *Ctx, r *Report) {
+	for _, m := range []string{"HasExactCID", "HasMultihash", "Get", "GetAll", "ForEach", "ForEachCid", "Marshal", "Flatten", "getRecord"} {
+		fn, err := c.Func(pkgIndex, "InsertionIndex", m)
+		if err != nil {
+			r.InfraFail("%v", err)
+			continue
+		}
+		key := "read-method-pure@" + fnKey(fn)
+		bad := ""
+		seen := map[*ssa.Function]bool{}
+		var visit func(f *ssa.Function, recv ssa.Value, depth int)
+		visit = func(f *ssa.Function, recv ssa.Value, depth int) {
+			if seen[f] || depth > 3 {
+				return
+			}
+			seen[f] = true
+			for _, g := range withAnon(f) {
+				eachInstr(g, func(in ssa.Instruction) {
+					switch x := in.(type) {
+					case *ssa.Store:
+						if fa, ok := x.Addr.(*ssa.FieldAddr); ok && isNamed(derefType(fa.X.Type()), pkgIndex, "InsertionIndex") {
+							fv := fieldVar(fa.X.Type(), fa.Field)
+							bad = fmt.Sprintf("field %s of the index is written at %s", fv.Name(), c.Pos(x.Pos()))
+						}
+						// a store through a pointer into a field of the index (ii.probe.digest = ...)
+						if fa, ok := x.Addr.(*ssa.FieldAddr); ok {
+							if inner, ok := fa.X.(*ssa.FieldAddr); ok && isNamed(derefType(inner.X.Type()), pkgIndex, "InsertionIndex") {
+								fv := fieldVar(inner.X.Type(), inner.Field)
+								bad = fmt.Sprintf("field %s of the index is written at %s", fv.Name(), c.Pos(x.Pos()))
+							}
+						}
+					case ssa.CallInstruction:
+						if sc := x.Common().StaticCallee(); sc != nil && sc.Signature.Recv() != nil && isNamed(derefType(sc.Signature.Recv().Type()), pkgIndex, "InsertionIndex") {
+							visit(sc, nil, depth+1)
+						}
+					}
+				})
+			}
+		}
+		visit(fn, nil, 0)
+		r.Check(bad == "", key, c.Pos(fn.Pos()), "stores to no field of the index", bad+": lookups run under the store's shared lock, so two of them race on that field and one answers for the other's key")
+	}
 }
